@@ -54,7 +54,10 @@ three partial injections with frontiers, `VR` congruence closure, links, lifting
   through a chain of links (every intermediate program of a chain runs on both sides); `subB m true src` and
   `subB m false src` are related in one simultaneous derivation (`subB_vr`). Worked instance with an always-watched
   LOCAL established by a one-sided prelude and used inside closures: `Demo.WatchedLocal` (`HeapU/UDemoSub.lean`).
-* NOT yet: an "original raises" flavour of `upto`.
+* statement lists (`HeapU/URepl.lean`, upstreamed from C01): `execSs_append`, `SoundSs.append`, `VkT.ofLe`, `ReplU` /
+  `replU_sound` / `ReplListU` / `VkBo.repl` (a statement replaced, up to allocations, by a list of statements).
+* late matches of CELLS (`HeapU/UMatch.lean`): `SRel.matchCellRight` / `matchCellLeft`, `le_lateC` / `le_lateCL`.
+* NOT yet: an "original raises" flavour of `upto`; fuel monotonicity of `Sem`.
 -/
 namespace DarkluaModel
 open Sem Sem.HeapU
